@@ -321,6 +321,10 @@ def qrombMidpnt (f : α → α) (gtol scale x1 x2 : α) : Option α := Id.run do
         return some (sgn ss)
   return none
 
+/-- `alpha_global = sqrt(eps_r * EPSILON_ZERO * (R_KJ_DEG_MOL * 1000.0) * 1000.0 * tk_x * 0.5)` (≈ 0.02935 at 25 °C) -/
+def alphaConst (epsr tk : α) : α :=
+  sqrt (epsr * EPSILON_ZERO * (R_KJ_DEG_MOL * lit 1000) * lit 1000 * tk * lit (1 / 2))
+
 /-- the decade break points of `calc_all_g`: integrate `1 → 0.1 → 0.01 … → xd` -/
 def gIntervals (xd : α) : List (α × α) :=
   let cuts : List α := [lit (1 / 10), lit (1 / 100), lit (1 / 1000), lit (1 / 10000), lit (1 / 100000),
@@ -335,7 +339,7 @@ def gIntervals (xd : α) : List (α × α) :=
 `xd = exp(-2·la·LOG_10)`, `alpha = sqrt(eps_r·ε₀·(R·1000)·1000·T·0.5)` -/
 def borkovecG (epsr tk la area grams gtol mwAq : α) (onlyCount : Bool) (aq : List (α × α)) (z : α) : Option α :=
   let xd := exp (-(lit 2) * la * LOG_10)
-  let alpha := sqrt (epsr * EPSILON_ZERO * (R_KJ_DEG_MOL * lit 1000) * lit 1000 * tk * lit (1 / 2))
+  let alpha := alphaConst epsr tk
   let scale := grams * area * alpha / F_C_MOL
   let counter := (lit 0 < la ∧ z < lit 0) ∨ (la < lit 0 ∧ lit 0 < z)
   if onlyCount = true ∧ ¬ counter then some (lit 0) else
